@@ -33,18 +33,18 @@ macro_rules! pairs {
     };
 }
 
-/// Names: foo/apbymbxc collide; H5_0L/AA4V0 collide; type/aicfdjcl collide; ajpqfnsa has
+/// Names: `_1`, `_0_`, `__42`, `_4294967295` consist of underscores and digits only (still names); foo/apbymbxc collide; H5_0L/AA4V0 collide; type/aicfdjcl collide; ajpqfnsa has
 /// id 0; begzhpfg has id 2^32-1; 5097222 = hash("foo"); 1292432058 = hash("type").
 pub const MACRO_LABELS: &[&str] = &[
     "foo", "bar", "apbymbxc", "H5_0L", "AA4V0", "type", "aicfdjcl", "ajpqfnsa", "begzhpfg", "0", "1", "5097222", "4294967295",
-    "1292432058",
+    "1292432058", "_1", "_0_", "__42", "a1", "_4294967295",
 ];
 
 pub fn pair_cases() -> Vec<MacroCase> {
     let mut v: Vec<MacroCase> = vec![];
     pairs!(v;
-        [foo bar apbymbxc H5_0L AA4V0 type aicfdjcl ajpqfnsa begzhpfg 0 1 5097222 4294967295 1292432058];
-        [foo bar apbymbxc H5_0L AA4V0 type aicfdjcl ajpqfnsa begzhpfg 0 1 5097222 4294967295 1292432058]);
+        [foo bar apbymbxc H5_0L AA4V0 type aicfdjcl ajpqfnsa begzhpfg 0 1 5097222 4294967295 1292432058 _1 _0_ __42 a1 _4294967295];
+        [foo bar apbymbxc H5_0L AA4V0 type aicfdjcl ajpqfnsa begzhpfg 0 1 5097222 4294967295 1292432058 _1 _0_ __42 a1 _4294967295]);
     v
 }
 
@@ -76,6 +76,10 @@ pub fn triple_cases() -> Vec<TripleCase> {
     triple!(v; H5_0L bar AA4V0);
     triple!(v; aicfdjcl type 1292432058);
     triple!(v; 2 1 0);
+    // names made of underscores and digits only are names, not ids
+    triple!(v; _1 1 0);
+    triple!(v; 42 __42 _0_);
+    triple!(v; _4294967295 4294967295 a1);
     v
 }
 
@@ -174,6 +178,11 @@ pub fn check_field_macro(rep: &mut Report) {
         ("5097222", || candid::field! { 5097222: Nat::ty() }),
         ("4294967295", || candid::field! { 4294967295: Nat::ty() }),
         ("begzhpfg", || candid::field! { begzhpfg: Nat::ty() }),
+        ("_1", || candid::field! { _1: Nat::ty() }),
+        ("_0_", || candid::field! { _0_: Nat::ty() }),
+        ("__42", || candid::field! { __42: Nat::ty() }),
+        ("a1", || candid::field! { a1: Nat::ty() }),
+        ("_4294967295", || candid::field! { _4294967295: Nat::ty() }),
     ];
     for (tok, f) in cases {
         rep.evaluations += 1;
